@@ -54,6 +54,10 @@ class Canon:
             return t
         if k == "new":
             return t
+        if k == "typed":
+            return self.norm(t[2])
+        if k == "istype":
+            return ("istype", self.norm(t[1]), t[2])
         if k == "attr":
             b = self.norm(t[1])
             if t[2] == self.tensor_attr and self.ip.type_name(t[1]) in ("State", "Observation"):
@@ -310,6 +314,8 @@ class Canon:
                 f"for each({s(it)}){self._lsuffix(lid, ln)}"
                 + "".join(f" if {s(c)}" for c in conds) for lid, it, conds in t[3])
             return f"<{t[1]}comp {', '.join(s(x) for x in t[2])} {gens}>"
+        if k == "istype":
+            return f"type({s(t[1])}) is {t[2]}"
         if k == "undef":
             return f"undef({t[1]})"
         if k == "unknown":
